@@ -31,6 +31,8 @@ THEOREMS = [
     "C12_replace_refused_noop",
     "C12_restore_insert",
     "C12_load_in_place",
+    "C12_reload",
+    "C12_reload_by_label_witness",
     "C12_call",
     "C12_seat_prewired_witness",
     "C12_pull_restore",
@@ -90,7 +92,7 @@ ASSUMPTIONS = ["channel identity = Python object identity",
 KINDS = {"inputs": "di", "outputs": "do", "sin": "si", "sout": "so"}
 CONJ = {"inputs": "outputs", "outputs": "inputs", "sin": "sout", "sout": "sin"}
 PANELS = ("inputs", "outputs", "sin", "sout")
-CAND_CLASSES = ["TA", "TB", "TC", "TD", "TE", "TF", "TG", "TH", "TI", "TJ", "TS"]
+CAND_CLASSES = ["TA", "TB", "TC", "TD", "TE", "TF", "TG", "TH", "TI", "TJ", "TS", "TK"]
 
 # (kind, class, parent index, label); p and q take their class from the case
 OBJS = [
@@ -126,6 +128,7 @@ _SPEC = {
     "TI": (["i:int", "s:str", "u", "b:bool"], ["oi:str", "os:str", "ob:bool"]),
     "TJ": (["i:int", "s:str", "u", "b:bool"], ["oi:int", "os:str", "ob:str"]),
     "TS": (["i:int", "s:str", "u", "b:bool"], ["oi:int", "os:str", "ob:bool"]),
+    "TK": (["i:int", "s:str", "u", "b:bool"], ["i", "s", "ob"]),
     "Mac12": (["x:int"], ["o"]),
 }
 _TYPES = {"int": int, "str": str, "bool": bool}
@@ -639,9 +642,24 @@ def _gen_lifecycle(rng, tier):
     by-value executors (the composite that comes back replaces its children), injected nodes (operators on
     output channels), for-nodes rebuilding their body — in between ordinary editing, with connections into the
     macro's body and across the workflows"""
-    g = _G(rng, nonstrict=[])
+    same_label = rng.random() < 0.3
+    g = _G(rng, nonstrict=[], cands=["TK", rng.choice(CAND_CLASSES)] if same_label else None)
     lay = g.lay
     g.wire_some(rng.randint(3, 9), cross=0.5)
+    if same_label:
+        # a child with an input and an output of the SAME label, both connected, saves and loads in place
+        g.ops.append(["readd", 10, rng.choice(WFS)])
+        for lab in rng.sample(["i", "s"], rng.randint(1, 2)):
+            ups = [c for c in lay.by_kind["outputs"] if lay.rows[c][0] != 10
+                   and (lay.rows[c][3] is None or lay.rows[c][3] is {"i": int, "s": str}[lab])]
+            downs = [c for c in lay.by_kind["inputs"] if lay.rows[c][0] != 10]
+            for _ in range(rng.randint(1, 2)):
+                g.connect_pair(lay.key[(10, "inputs", lab)], rng.choice(ups))
+            for _ in range(rng.randint(1, 2)):
+                g.connect_pair(lay.key[(10, "outputs", lab)], rng.choice(downs))
+        if rng.random() < 0.3:
+            g.state_op()
+        g.ops += [["reload", 10], ["query", 10]]
     # connections between the macro's body and the outside, and inside the body
     for _ in range(rng.randint(0, 3)):
         c = rng.choice(lay.own(6) + lay.own(7))
@@ -676,8 +694,18 @@ def _gen_lifecycle(rng, tier):
             g.ops.append(["inject", rng.randrange(2, N_OBJ), rng.randrange(3), rng.randrange(4), rng.randrange(N_OBJ)])
         elif r < 0.66:
             g.ops.append(["fornode", rng.choice(WFS), rng.randrange(6), rng.randrange(2 * N_OBJ)])
+            if rng.random() < 0.7:
+                # hand-made connections from outside onto GENERATED children, then a re-run that rebuilds the body
+                for _ in range(rng.randint(1, 3)):
+                    panel = rng.choice(PANELS)
+                    # (data: only un-hinted channels of the table, the generated ones carry hints the harness cannot judge)
+                    src = (lay.key[(rng.choice([2, 3, 8, 9, 12]), "inputs", "u")] if panel == "outputs"
+                           else rng.choice([c for c in lay.by_kind["outputs"] if lay.rows[c][3] is None]) if panel == "inputs"
+                           else rng.choice(lay.by_kind[CONJ[panel]]))
+                    g.ops.append(["connectx", rng.randrange(3), rng.randrange(14), panel, rng.randrange(4), src])
+                g.ops.append(["rerun", rng.randrange(3), rng.randrange(8)])
         elif r < 0.72:
-            g.ops.append(["reload", rng.choice([2, 3, 4, 5, 6, 7, 8, 9, 12])])
+            g.ops.append(["reload", rng.choice([2, 3, 4, 5, 6, 7, 8, 9, 12, 10, 11])])
         elif r < 0.79:
             g.construct()
         elif r < 0.82:
@@ -863,6 +891,22 @@ def corpus():
         ["startv", 5],
         ["finish", 5],
     ])
+    # an outside channel wired onto a generated body node of a for-loop, then a re-run that rebuilds the body
+    yield mk(["TA", "TA"], [
+        ["fornode", 1, 2, 0],
+        ["connectx", 0, 4, "outputs", 0, ("b", "inputs", "u")],
+        ["connectx", 0, 4, "sout", 0, ("a", "sin", "run")],
+        ["rerun", 0, 3],
+        ["query", 3],
+    ])
+    # a workflow child whose input and output share a label, both connected, loads its saved state in place
+    yield mk(["TK", "TA"], [
+        ["readd", 10, 0],
+        ["connect", "method", ("p", "inputs", "i"), ("a", "outputs", "oi")],
+        ["connect", "method", ("p", "outputs", "i"), ("b", "inputs", "u")],
+        ["reload", 10],
+        ["query", 10],
+    ])
     # a replacement pre-wired on an extra channel to a neighbour it shares with the replaced node (refused today)
     yield mk(["TS", "TA"], [
         ["connect", "method", ("a", "sout", "ran"), ("d", "sin", "run")],
@@ -968,7 +1012,7 @@ def _fmt_flags(fl):
 
 
 TRACED = ("readd", "start", "startv", "finish", "boom", "runnode", "runwf", "pull", "roundtrip", "inject", "fornode",
-          "reload", "construct")
+          "reload", "construct", "connectx", "rerun")
 
 
 class _Trace:
@@ -1378,7 +1422,7 @@ def _run_impl(case, T):
                     isinstance(x, int) and 0 <= x < lay.n for x in (op[2:] if kind == "connect" else op[1:])):
                 raise _Malformed()
             if kind in ("odisc", "query", "remove", "start", "startv", "finish", "runnode", "boom", "pull", "runwf",
-                        "roundtrip", "inject", "fornode", "reload") and not (
+                        "roundtrip", "inject", "fornode", "reload", "connectx", "rerun") and not (
                     isinstance(op[1], int) and 0 <= op[1] < N_OBJ):
                 raise _Malformed()
             stale = [x for x in ({"remove": op[1:2], "replace": op[1:3], "copyio": op[2:4], "odisc": op[1:2],
@@ -1618,6 +1662,36 @@ def _run_impl(case, T):
                 made = getattr(N, cls)(label=f"new{len(keep)}", parent=None if par < 0 else objs[par], **kwargs)
                 made.recovery = None
                 keep.append(made)
+            elif kind == "connectx":
+                # a hand-made connection from a channel of the table onto a channel of a node some operation GENERATED
+                # (the body / index / collector nodes of a for-loop, ...): [j, child, panel, position, static channel]
+                modelled = False
+                from pyiron_workflow.nodes.composite import Composite as _Comp
+
+                hosts = [x for x in keep if isinstance(x, _Comp) and len(x.children) > 0]
+                if not hosts or op[3] not in PANELS or not (isinstance(op[5], int) and 0 <= op[5] < lay.n):
+                    res = "skip"
+                else:
+                    host = hosts[op[1] % len(hosts)]
+                    kid = list(host.children.values())[op[2] % len(host.children)]
+                    io = {"inputs": kid.inputs, "outputs": kid.outputs, "sin": kid.signals.input,
+                          "sout": kid.signals.output}[op[3]]
+                    chs = list(io)
+                    if not chs:
+                        res = "skip"
+                    else:
+                        obj[op[5]].connect(chs[op[4] % len(chs)])
+            elif kind == "rerun":
+                modelled = False
+                from pyiron_workflow.nodes.for_loop import For as _For
+
+                loops = [x for x in keep if isinstance(x, _For)]
+                if not loops:
+                    res = "skip"
+                else:
+                    loop = loops[op[1] % len(loops)]
+                    loop.inputs.i.value = list(range(1 + op[2] % 4))
+                    guarded(lambda: loop.run())
             elif kind == "reload":
                 modelled = False
                 X = objs[op[1]]
@@ -2085,12 +2159,18 @@ def oracle(case, r):
             fails.append(_f("owner-observers-raise", k, op, st["flags_exc"]))
         if (op[0] in ("remove", "replace") or op[0] in TRACED) and res != "skip":
             # whoever lost its parent in this operation is not pointed at by anybody, and holds nothing
+            # (what several nodes DISCARDED TOGETHER still hold among themselves is nobody's business: "other channel" is a
+            # channel of something that is still around)
+            lost = {o for o, (p0, p1) in enumerate(zip(prev_parents, st["parents"])) if p0 != -1 and p1 == -1}
+            gone = {c for c, row in enumerate(lay.rows) if row[0] in lost} if len(lost) > 1 else set()
             for o, (p0, p1) in enumerate(zip(prev_parents, st["parents"])):
                 if p0 != -1 and p1 == -1:
                     mine_set = set(lay.own(o))
                     cause = ("by-value-merge" if p0 in (st.get("merged") or []) else
                              "load-in-place" if op[0] == "reload" and p0 == op[1] else None)
                     for a, l in enumerate(snap):
+                        if a in gone - mine_set or (a in mine_set and l and set(l) <= gone):
+                            continue
                         if a not in mine_set and mine_set & set(l):
                             fails.append(_f("removed-node-still-referenced", k, op,
                                             f"{_oname(lay, o)} lost its parent but channel {a} ({_name(lay, a)}) lists "
